@@ -72,3 +72,23 @@ def pick_rows(rng, info, k, storable=False):
             seen.add(r['number'])
     rest = rng.sample(pool, min(k, len(pool)))
     return fixed + rest
+
+
+def harness_ub():
+    """The same harness without ASan (UBSan only) and with RLIMIT_AS 2 GiB: absurd allocations throw bad_alloc."""
+    return vlib.build_exe('h_map_ub', [vlib.ROOT + '/harness/h_map.cpp'] + vlib.repo_src('symmetry.cpp', 'gz.cpp'),
+                          flags=['-O1', '-g', '-fsanitize=undefined', '-fno-sanitize-recover=all'])
+
+
+INT_MIN, INT_MAX = -2 ** 31, 2 ** 31 - 1
+
+
+def mutations(true):
+    """The structure-aware values for one header word."""
+    vals = [0, 1, -1, INT_MIN, INT_MAX, INT_MAX - 1, INT_MIN + 1, true + 1, true - 1, true * 2, -true, 2 ** 31 // 3]
+    return [v for v in vals if INT_MIN <= v <= INT_MAX]
+
+
+def gz_member(data):
+    import gzip
+    return gzip.compress(data, mtime=0)
